@@ -15,6 +15,7 @@ open Conv
 open TableSM
 open Catalogue
 open WalSM
+open CrashSM
 
 let to_name = to_bytes
 let of_name = of_bytes
@@ -124,6 +125,27 @@ let run (entry : string) (inp : Sx.t) : Sx.t =
                             | _ -> raise (Conv "seed")) } in
       let guard = to_bool (field "guard" c) in
       L (List.map of_hout (run_h guard cfg (List.map to_hop hops) (init cfg)))
+  | "store_effects", L [L c; L hops] ->
+      (* the primitive effects of every operation of the history, grouped and sorted within the
+         groups whose internal order the code leaves to its thread pools *)
+      let cfg = { c_factor = to_n (field "factor" c); c_max_wal_files = to_n (field "max_files" c);
+                  c_max_wal_bytes = to_n (field "max_bytes" c); c_seed = s_column_names } in
+      let ops = List.filter_map (fun h -> match to_hop h with HOp o -> Some o | HObserve _ -> None) hops in
+      let zs n = Z.to_string (z_of_n n) in
+      let of_eff = function
+        | EWalTmpCreate id -> (0, L [A "waltmp-create"; A (zs id)])
+        | EWalTmpWrite (id, _) -> (1, L [A "waltmp-write"; A (zs id)])
+        | EWalRename (id, _) -> (2, L [A "wal-rename"; A (zs id)])
+        | EPartStore (n, id, _) -> (3, L [A "store"; of_name n; A (zs id)])
+        | EMetaStore (k, _) -> (4, L [A "meta"; A (zs k)])
+        | EPartRemove (n, id) -> (5, L [A "rmpart"; of_name n; A (zs id)])
+        | EWalRemove id -> (6, L [A "rmwal"; A (zs id)]) in
+      let canon es =
+        let tagged = List.map of_eff es in
+        let sorted = List.stable_sort (fun (g1, x1) (g2, x2) ->
+          if g1 <> g2 then compare g1 g2 else compare (Sx.to_string x1) (Sx.to_string x2)) tagged in
+        L (List.map snd sorted) in
+      L (List.map canon (run_effects cfg ops (init cfg)))
   | "plan_compaction", L [f; L sizes] ->
       let parts = List.mapi (fun i s -> { p_id = n_of_z (Z.of_int i); p_off = N0; p_size = to_n s; p_rows = [] })
                     sizes in
